@@ -822,10 +822,85 @@ class Slice:
         return {(a[1], a[2]) for a in self.atoms if a[0] == "field"}
 
 
+def canonicalise_renames(d):
+    """A function of the pinned tree that is missing today, while exactly one unknown function with the same owner
+    and the same parameter/return types exists, has been renamed: rewrite the new name back to the recorded one
+    (definitions, closures below it, callee paths). Returns the rename map {new: old}."""
+    import os
+    p = os.path.join(os.path.dirname(os.path.abspath(__file__)), "anchor_sigs.json")
+    if not os.path.isfile(p):
+        return {}
+    with open(p) as fh:
+        sigs = json.load(fh)
+    cur = {f["def"]: f for f in d.get("fns", []) if f.get("has_body")}
+    missing = [n for n in sigs if n not in cur]
+    if not missing:
+        return {}
+    unknown = [n for n in cur if n not in sigs]
+
+    def key(f):
+        return (f.get("impl_self_head") or f["def"].rsplit("::", 1)[0], f.get("impl_trait"), tuple(i["ty"] for i in f["inputs"]), f["ret"]["ty"])
+    ren = {}
+    for old in missing:
+        s = sigs[old]
+        k = (s["owner"], s.get("trait"), tuple(s["inputs"]), s["ret"])
+        cands = [n for n in unknown if key(cur[n]) == k and n not in ren]
+        old_cands = [o for o in missing if (sigs[o]["owner"], sigs[o].get("trait"), tuple(sigs[o]["inputs"]), sigs[o]["ret"]) == k]
+        if len(cands) == 1 and len(old_cands) == 1:
+            ren[cands[0]] = old
+    if not ren:
+        return {}
+
+    def fix(name):
+        if not isinstance(name, str):
+            return name
+        if name in ren:
+            return ren[name]
+        for new, old in ren.items():
+            if name.startswith(new + "::{"):
+                return old + name[len(new):]
+        return name
+    for f in d.get("fns", []):
+        f["def"] = fix(f["def"])
+    for b in d.get("bodies", []):
+        b["def"] = fix(b["def"])
+        for k in ("parent", "root_parent"):
+            if k in b:
+                b[k] = fix(b[k])
+        for l in b.get("locals", []):
+            if "closure" in l:
+                l["closure"] = fix(l["closure"])
+        for blk in b.get("blocks", []):
+            for st in blk.get("stmts", []):
+                rv = st.get("rv") or {}
+                if rv.get("k") == "agg" and rv.get("ak") == "closure":
+                    rv["def"] = fix(rv["def"])
+                for o in [rv.get("op")] + list(rv.get("ops", [])):
+                    if isinstance(o, dict) and o.get("k") == "const":
+                        for kk in ("fn", "closure"):
+                            if kk in o:
+                                o[kk] = fix(o[kk])
+            t = blk.get("term")
+            if t and t.get("k") in ("call", "tailcall"):
+                c = t["callee"]
+                for kk in ("path", "generic", "calls_closure", "self_closure"):
+                    if kk in c:
+                        c[kk] = fix(c[kk])
+                for o in t.get("args", []):
+                    if isinstance(o, dict) and o.get("k") == "const":
+                        for kk in ("fn", "closure"):
+                            if kk in o:
+                                o[kk] = fix(o[kk])
+            if t and t.get("k") == "drop":
+                t["tyf"]["drops"] = [[a, fix(bb)] for a, bb in t["tyf"].get("drops", [])]
+    return ren
+
+
 class Crate:
     def __init__(self, path, config):
         with open(path) as fh:
             d = json.load(fh)
+        self.renames = canonicalise_renames(d)
         self.config = config
         self.path = path
         self.features = d.get("cfg", [])
